@@ -101,7 +101,11 @@ def build_wl(item):
                         nm = names[j][:-4] if (style == 0 or (style == 2 and j % 2)) else names[j]
                         out += nm + '\n'
                 return out, []
-        done = worklist(cmd, T2T, None)
+        try:
+            done = worklist(cmd, T2T, None)
+        except Exception as ex:      # noqa: what the user would see as a crash / wrong file
+            return 'C18 --include on graph %r, files %r: %s: %s' % (
+                bits, [names[i] for i in var['file'] if i < n], type(ex).__name__, ex)
         exp = ref_closure(n, bits, [i for i in var['file'] if i < n], var['skip'])
         if twin:
             exp = exp + ['x']
